@@ -127,13 +127,14 @@ P("C09", [("K11", None), ("V3", None), ("V17", None), ("V28", None), ("V27", Non
   "Not reached: termination of the SLG engine (subgoal abstraction, truncation), of Fulfill::fulfill and of the fixed-point loop itself; 'without panicking' is not claimed (the overflow push panics by design).",
   "contract-based verification with Kani harness contracts (bounded) + Verus on extracted text")
 
-P("C08", [("V11", None), ("V29", None)],
+P("C08", [("V11", None), ("V29", None), ("V33", None)],
   "proof",
   "Partial: Verus proves on the verbatim text of add_sized_program_clauses, add_copy_program_clauses, add_clone_program_clauses (same table as Copy) and add_tuple_program_clauses, for EVERY TyKind variant and variable kind, that exactly the clause dictated by the "
   "language table is generated (Sized: never for str/slices/extern types, nothing built in for dyn/alias/placeholder/opaque, last field for ADTs, last element for tuples, the fact for "
   "everything else, flounder on a general unknown; Copy: all elements for tuples, the element for arrays, the captures for closures, the fact for fn items/pointers, nothing built in otherwise), "
-  "and on the verbatim text of the two Sized helpers that the ADT rule conditions on exactly the struct's LAST field (the bare fact if there is none) and the tuple rule on exactly the LAST element (the fact for the 0-tuple) (V29). Unbounded.",
-  "Not reached: FnPtr / Fn* / Unsize / Pointee / DiscriminantKind / Coroutine, the outer dispatcher (its match sits in a closure), the helpers' bodies (last_field_of_struct, needs_impl_for_tys), how explicit impls combine (solver).",
+  "and on the verbatim text of the two Sized helpers that the ADT rule conditions on exactly the struct's LAST field (the bare fact if there is none) and the tuple rule on exactly the LAST element (the fact for the 0-tuple) (V29), "
+  "and on the verbatim text of last_field_of_struct (its two closures annotated in place, edit I5) that this 'last field' is None for enums and unions and, for a struct, the LAST field of its variant with the struct's arguments substituted, None if it has no field (V33). Unbounded.",
+  "Not reached: FnPtr / Fn* / Unsize / Pointee / DiscriminantKind / Coroutine, the outer dispatcher (its match sits in a closure), the body of needs_impl_for_tys (iterator map), Binders::{map_ref, filter_map, substitute} (abstract), how explicit impls combine (solver).",
   "contract-based deductive verification: Verus on mechanically extracted function text with a ghost clause log")
 
 P("C29", [("V9", None), ("K1", r"^k3_"), ("K7", None)],
